@@ -54,7 +54,7 @@ def judge(v, o):
     return None
 
 
-NAMES = ["inc.html", "dir/x.twig", "lib"]
+NAMES = ["inc.html", "dir/x.twig", "lib", "my%20page.twig", "100%done", "%s.twig", "%%.twig", "a b.html", "\u00fc.twig", "v1.2/a+b.twig", "%!d(x)%v"]
 LOADERS = {
     "include": "{%% include '%s' %%}", "extends": "{%% extends '%s' %%}", "embed": "{%% embed '%s' %%}{%% endembed %%}",
     "import": "{%% import '%s' as m %%}", "from": "{%% from '%s' import a %%}", "use": "{%% extends 'ok' %%}{%% use '%s' %%}",
@@ -111,7 +111,7 @@ def check(run, only=None):
             err = o["obs"].get("err") or {}
             if o["obs"]["status"] != "err":
                 run.mismatch("C20 %s error not reported" % v["fam"], v, "a template with a syntax error was accepted", observed=o["obs"])
-            elif err.get("name") != v["expname"]:
+            elif err.get("name") != v["expname"] or v["expname"] not in (err.get("msg") or ""):
                 run.mismatch("C20 %s error does not name the template" % v["fam"], v,
                              "the error raised while loading '%s' does not identify it" % v["expname"],
                              expected=v["expname"], observed={"name": err.get("name"), "msg": err.get("msg")})
